@@ -94,7 +94,7 @@ class UDPListener:
                 return
             try:
                 request = json.loads(msg.decode('utf-8'))
-            except ValueError:  # not utf-8 or not JSON
+            except (ValueError, RecursionError):  # not utf-8, not JSON or nested too deeply
                 continue
             if not isinstance(request, dict) or request.get('SECoP') != 'discover':
                 continue
